@@ -13,7 +13,7 @@ EXPLANATION = ('C02 is mostly a liveness statement, which no static argument in 
                'scheduling (or reports need_scheduling to a caller that does).')
 NOT_DECIDED = ['"runnable work eventually runs": fairness of scheduler_loop, solver progress, blocked requests eventually re-enabled (liveness over runtime quantities)',
                'that every closed job completes (follows from the above plus C13 R13.2)']
-RELATED = {'C13': ['R13.2', 'R13.7'], 'C03': ['R03.1', 'R03.2'], 'C05': ['R05.5'], 'C04': ['R04.2']}
+RELATED = {'C08': ['R08.4~cancel_task'], 'C13': ['R13.2', 'R13.7'], 'C03': ['R03.1', 'R03.2'], 'C05': ['R05.5'], 'C04': ['R04.2']}
 ASSUMPTIONS = []
 SUB = HQ + 'client::submit::'
 INTARRAY = 'hyperqueue::common::arraydef::IntArray::'
